@@ -91,6 +91,15 @@ PROPS = {
         level_text="Lean 4 theorems over EVERY layout of an independent APPNOTE producer (Spec.Zip.build: any number of entries, any prefix, gaps, every data-descriptor form, local headers disagreeing with the central ones, each of the 2^3 ZIP64 extended-information subsets per entry forced or needed, forced or needed ZIP64 end records, trailing bytes without ZIP64 records, foreign extra records, any host system/attributes/timestamps/flags): ZipArchive::new returns exactly the central directory's entries in order with the recorded values, offset() = prefix length, the comment (reader_on_wf); by_index_raw returns exactly the stored bytes from the data start computed out of the LOCAL header's lengths (reader_entry_raw); by_index returns the decoder's output gated by the central CRC, i.e. the original bytes for stored entries (reader_entry_read/_decoded/_stored); an unsupported method fails that entry only; lookup by name returns the last duplicate, absent names and out-of-range indices are FileNotFound; attributes map to the documented Unix mode. The reader model is tied to the source by correspondence (read stream: builder/writer/lying/truncated/random archives through the seekable and streaming readers); the format spec is tied to reality by the spec stream (Spec.Zip.build vs an independent Rust builder byte for byte; Spec.Zip.viewOf vs what the real crate reports; CPython zipfile on a sample)",
         level_note="hypotheses kept explicit: Fits (every value fits its field; sizes below 2^63), Readable (central extra data are well-formed records without the ZIP64/AES identifiers, method is not 99 - AES is C16), NoFalseSig (names/comments/trailing bytes do not embed an end-record signature where the reader probes; decidable, with sufficient-condition lemmas and a concrete counterexample showing the reader does go wrong without it). Decoders are parameters (Ext.decode; stored = identity is a hypothesis of reader_entry_stored). The model is hand-written (no translation tie for I/O code): agreement with the crate rests on the read stream",
     ),
+    "C07": dict(
+        props=["ZipVerif.Props.C07"],
+        tie=[],
+        streams=["fs"],
+        title="extract() reproduces the tree and writes nothing outside the target",
+        technique="Lean 4 proof over an abstract Unix filesystem (kernel path resolution through existing directories, mkdir/open/chmod/stat, std's create_dir_all algorithm, owner permission bits or superuser) and a model of both extractors + differential correspondence: every generated archive is extracted by the real crate into a fresh sandbox with a canary sibling and compared with the model's predicted result, tree, contents and modes + implementation-side oracle (nothing outside changed, unsafe name => error, plain consistent archives extract exactly)",
+        level_text="proof about the filesystem MODEL; partial w.r.t. the real filesystem. Lean 4 theorems for both extractors (ZipArchive::extract, ZipStreamReader::extract), over every entry list, target directory and initial filesystem, including runs that end in an error: every binding the run adds to the write log is at a resolved path inside the target, or creates a missing ancestor of the target as a directory (extract_targets_inside), hence every path outside the target maps to the same node before and after (extract_confined, extract_confined_exact); an entry name rejected by enclosed_name makes the run fail, the first one reached with InvalidArchive and nothing done for it (extract_unsafe_errors, extract_unsafe_stops); under the decidable hypothesis Consistent (names safe and readable; file names end in an ordinary component; '/./'-terminated directory names only after '..'; no path needed both as file and as directory; superuser, or modes that keep owner write/search) on a fresh target the run succeeds and the final filesystem equals treeOf / treeOfStream: directories on the way exist with default modes, file paths hold exactly the entry bytes, recorded modes (low 12 bits) are applied, last duplicate wins (extract_faithful, extractStream_faithful). The model is tied to the source by correspondence (fs stream): 600 / 20000 archives per run against the real crate on the real filesystem, superuser and euid-65534 runs",
+        level_note="real-filesystem behaviours outside the model are only observed by the sandbox comparison: symbolic links or mount points already present in the target, other owners / ACLs, name-length limits, ENOSPC, races. std::fs::create_dir_all, Path::join/parent/exists and the kernel's path walk are parameters modelled in Spec/FS.lean and validated by the same stream (e.g. create_dir_all(\"t/a/../b\") creates t/a as well; create_dir_all(\"t/a/.\") fails with ENOENT when t/a is missing). What the archive reader delivers per entry (name, bytes, errors, unix_mode) is input to the extractor model; the reader itself is C01/C05/C10's subject. Consistent is sufficient, not necessary (about a tenth of the generated inconsistent archives still extract exactly as treeOf says). Harness safety: every extraction runs in a child process chroot-jailed into a per-op sandbox, behind a name guard that refuses any op whose names could leave it, so a broken crate cannot touch the host filesystem",
+    ),
 }
 
 ALLOWED_AXIOMS = {"propext", "Classical.choice", "Quot.sound"}
